@@ -24,6 +24,7 @@ KNOWN_NEG_WEIGHT = "KF-C11-negative-weight-column"
 
 def _sample(case):
     return {k: case[k] for k in ("backend", "idkind", "family", "thresholds", "stats")} | {
+        "earlier_calls_on_same_db_api": len(case.get("prior") or []), "splinkdataframe_inputs": bool(case.get("sdf")),
         "n_nodes": len(case["nodes"]), "n_edges": len(case["edges"]), "edges_head": case["edges"][:6]}
 
 
@@ -34,7 +35,6 @@ class Runner:
         self.engine_s = 0.0
 
     def add(self, case):
-        ctx = self.ctx
         t0 = time.time()
         try:
             recs, cap = X.run_impl(case, capture=True)
@@ -43,6 +43,30 @@ class Runner:
             self.direct_fail.append((case, {"error": repr(e)[:800]}))
             return
         self.engine_s += time.time() - t0
+        self._process(case, recs, cap)
+
+    def add_sequence(self, cases):
+        """Several calls on ONE db_api; every call is checked.  case["prior"] records the earlier calls so
+        that the oracle, the shrinker and --replay re-run the same history."""
+        from harness import splink_util as su
+        api = su.make_api(cases[0]["backend"])
+        done = []
+        for c in cases:
+            c["prior"] = [{k: v for k, v in d.items() if k != "prior"} for d in done]
+            t0 = time.time()
+            try:
+                recs, cap = X.call_on(api, c, capture=True)
+            except Exception as e:  # noqa: BLE001
+                self.engine_s += time.time() - t0
+                self.direct_fail.append((c, {"error": repr(e)[:800]}))
+                return
+            self.engine_s += time.time() - t0
+            self.ctx.hist("position in a sequence of calls on one db_api", len(done) + 1)
+            self._process(c, recs, cap)
+            done.append(c)
+
+    def _process(self, case, recs, cap):
+        ctx = self.ctx
         canon, why = (X.canonical_stats if case.get("stats") else X.canonical_detail)(case, recs)
         if canon is None:
             self.direct_fail.append((case, {"rows": recs[:30], "why": why}))
@@ -96,18 +120,22 @@ def generate(ctx: Ctx, R: Runner):
         for j, ths in enumerate(lists3 if not quick else rng.sample(lists3, 3)):
             R.add(X.grid_case(rng, 3, probs, ths, "sqlite" if (j % 2 == 0) else "duckdb", stats=(rng.random() < 0.25)))
     grids4 = list(itertools.product(levels, repeat=6))
-    for probs in (rng.sample(grids4, 400) if quick else grids4):
+    for probs in (rng.sample(grids4, 300) if quick else grids4):
         ths = rng.choice([["p", [256, 512, 768]], ["p", [768, 512, 256]], ["p", [512, 256, 1024, 768]], ["w", [0, 1]],
                           ["p", [640, 384]]])
         R.add(X.grid_case(rng, 4, probs, ths, "sqlite" if rng.random() < 0.8 else "duckdb", stats=(rng.random() < 0.2)))
     # ---- seeded families ------------------------------------------------------------------
-    rounds = 8 if quick else 30
+    rounds = 6 if quick else 30
     for rd in range(rounds):
         for fi, fam in enumerate(X5.FAMILIES):
             backend = "duckdb" if (fi + rd) % 2 == 0 else "sqlite"
             idkind = ["int", "str", "link"][(fi + rd) % 3]
             n = rng.choice([6, 10, 16, 25, 40]) if quick else rng.choice([6, 10, 16, 25, 40, 80, 150])
             R.add(X.build_case(rng, fam, n, backend, idkind, stats=(rng.random() < 0.35)))
+    # ---- sequences of calls on one db_api (results must not depend on what ran before) ---------
+    kinds = ["graphs", "graphs", "thresholds", "modes", "mixed"]
+    for i in range(30 if quick else 200):
+        R.add_sequence(X.gen_sequence(rng, "duckdb" if i % 2 == 0 else "sqlite", kinds[i % len(kinds)], sdf=(i % 3 == 2)))
     # ---- fractional match weights, edges exactly on the converted threshold ------------------------
     for i in range(48 if quick else 200):
         fam = X5.FAMILIES[i % len(X5.FAMILIES)]
@@ -153,11 +181,13 @@ def run(ctx: Ctx):
         "lists (sorted, unsorted, duplicates, off-grid, 0 and 1, weights), a seeded sample (thorough: all 4096) of the "
         "4-node grids; seeded C05 graph families with probabilities on an eighths grid and threshold lists of length "
         "1..6 (values equal to edge probabilities, 0, 1, random k/1024, integer match weights), detailed and summary "
-        "output, DuckDB and SQLite, integer/string/composite-string ids. Non-trivial: >=3 nodes and at least two "
+        "output, DuckDB and SQLite, integer/string/composite-string ids; sequences of 2-3 calls on one db_api (different graphs "
+        "with identical thresholds, same graph with different thresholds, alternating output modes; raw pandas and "
+        "SplinkDataFrame inputs), every call checked. Non-trivial: >=3 nodes and at least two "
         "different partitions among the requested thresholds; distinct by (backend, ids, edge rows, thresholds, output).")
     ctx.trusted += [
-        "harness/c05_x.py id -> rank map; columns of the detailed output are matched to the ascending distinct "
-        "thresholds by position, summary rows by ascending threshold_match_probability",
+        "harness/c05_x.py id -> rank map; each requested threshold is read from the detailed-output column carrying its "
+        "name (cluster_p_<p>, cluster_mw_<w as requested>), summary rows by ascending threshold_match_probability",
         "modelled not verified: SQL LEFT JOIN / GROUP BY HAVING coalesce(min) / NOT IN / IN semantics (DESIGN 3b); "
         "single-threshold clustering inside the routine is replaced by its C05 spec (C05 checks that link)",
         "fractional match weights: the model's threshold is the exact rational the engine compares against when given "
